@@ -166,6 +166,7 @@ class BitmapHist : public Engine {
         int prev_special = -1; // slot that was just cleared / cloned into / reloaded
         int pending_perturb = 0, perturb_obj = 0, perturb_src = 0;
         int cleared_run = -1;
+        int pair_pending = -1, pair_obj = -1; // two neighbouring run containers to be combined next
         std::vector<size_t> rare_targets; // operations on rarely reached allocation paths
         for (size_t i = 0; i < nops; i++) {
             uint32_t t = (uint32_t)r.below(total), k = 0;
@@ -174,6 +175,10 @@ class BitmapHist : public Engine {
             if (prev_big && r.chance(1, 2)) k = r.chance(1, 2) ? ADD : REMOVE;
             // a freshly cleared / cloned / reloaded object is used as an operand straight away
             if (prev_special >= 0 && r.chance(2, 3)) k = r.chance(3, 4) ? BIN : (r.chance(1, 2) ? RELOAD : CLONE);
+            if (pair_pending >= 0) {
+                if (r.chance(3, 4)) k = BIN;
+                else pair_pending = -1;
+            }
             prev_big = false;
             Op op;
             int o = (int)r.below(r.chance(2, 3) ? 1 : NOBJ);
@@ -181,7 +186,7 @@ class BitmapHist : public Engine {
             int force_clear = -1;
             for (int t = 0; t < NOBJ; t++)
                 if (g.is_run[t] == 1 && g.m[t].any() && r.chance(1, 8)) force_clear = t;
-            if (force_clear >= 0 && pending_perturb == 0) {
+            if (force_clear >= 0 && pending_perturb == 0 && pair_pending < 0) {
                 k = CLEAR;
                 o = force_clear;
             }
@@ -266,6 +271,35 @@ class BitmapHist : public Engine {
                     else if (mx >= len) mn = mx - len;
                     else mx = mn + len <= 65535 ? mn + len : 65535;
                 }
+                if (k == ADDR && g.m[o].none() && r.chance(1, 2)) {
+                    // a second run container right next to a live one: touching it, one value
+                    // apart, two apart, or overlapping its end by one - then the two are combined
+                    int other = -1;
+                    for (int t = 0; t < NOBJ; t++)
+                        if (t != o && g.is_run[t] == 1 && g.m[t].any() && (other < 0 || r.chance(1, 2))) other = t;
+                    if (other >= 0) {
+                        uint32_t lo = (uint32_t)g.m[other]._Find_first(), hi = lo;
+                        while (hi + 1 < 65536 && g.m[other][hi + 1]) hi++; // its first run is [lo, hi]
+                        long gap = (long)r.below(4) - 1;                    // -1 overlap, 0 touching, 1, 2
+                        uint32_t len = r.chance(2, 3) ? (uint32_t)r.range(4097, 9000) : (uint32_t)r.range(1, 4096);
+                        if (r.chance(1, 2)) { // after it
+                            long st = (long)hi + 1 + gap;
+                            if (st >= 0 && st < 65535) {
+                                mn = (uint32_t)st;
+                                mx = std::min<uint32_t>(65535, mn + len);
+                                pair_pending = other;
+                            }
+                        } else { // before it
+                            long en = (long)lo - gap; // exclusive end
+                            if (en > 0 && en <= 65535) {
+                                mx = (uint32_t)en;
+                                mn = mx > len ? mx - len : 0;
+                                pair_pending = other;
+                            }
+                        }
+                        if (pair_pending >= 0) pair_obj = o;
+                    }
+                }
                 if (k == ADDR && g.m[o].none() && mx > mn && mx - mn > 4096) g.is_run[o] = 2; // set below to 1
 
                 op.set("min", mn);
@@ -322,6 +356,12 @@ class BitmapHist : public Engine {
                 op.kind = names[which];
                 int a = (int)r.below(NOBJ), b = (int)r.below(NOBJ); // may alias
                 if (prev_special >= 0) (r.chance(1, 2) ? a : b) = prev_special;
+                if (pair_pending >= 0) {
+                    bool sw = r.chance(1, 2);
+                    a = sw ? pair_pending : pair_obj;
+                    b = sw ? pair_obj : pair_pending;
+                    pair_pending = -1;
+                } else
                 { // two run containers meet
                     int runs[NOBJ], nr = 0;
                     for (int t = 0; t < NOBJ; t++)
